@@ -396,6 +396,12 @@ def configs(tier):
                     for decl, od in (("float64", "float32"), ("float32", "int64")):
                         out.append((N, shape, f"empty0:{decl}", od, 200 if E > 1 else None, full))
                     out.append((N, shape, "uninitbuf:float64", "float32", 200 if E > 1 else None, full))
+    # non-square, multi-dimensional and singleton-dimension observations (also in the quick tier, reduced alphabet / state cap),
+    # float64 and bool observations on them
+    for N in (2, 3):
+        for shape, od in (((2, 3), "float32"), ((1, 2), "float32"), ((2, 1), "bool"), ((2, 3), "float64")):
+            if (N, shape, "zeros", od) not in [(c[0], c[1], c[2], c[3]) for c in out]:
+                out.append((N, shape, "zeros", od, 150 if tier == "quick" else 600, False))
     return out
 
 
@@ -408,7 +414,8 @@ def run(rep):
         "torch indexing/cat/gather/scatter/roll are trusted; only inferno's use of them is checked",
         "observations are written in the record's dtype (or int into float storage); float->int promotion by "
         "out-of-place writes is documented behaviour and not explored",
-        "record sizes N<=3 (quick) / N<=5 (thorough), observation shapes (), (2,), (2,2)",
+        "record sizes N<=3 (quick) / N<=5 (thorough), observation shapes (), (2,), (2,2) to fixpoint; plus (2,3), (1,2), (2,1), float64/bool "
+        "observations on N in {2,3} with a reduced offset alphabet and a state cap (breadth-first, all states up to the cap fully expanded)",
     ]
     cov = {
         "states": c.get("states", 0),
@@ -420,6 +427,8 @@ def run(rep):
         "capped_configurations": c.get("capped_configs", 0),
         "state_capped_configurations": c.get("state_capped_configs", 0),
         "exhaustive": c.get("capped_configs", 0) == 0,
+        "exhaustive_note": "state-capped configurations are the supplementary multi-dimensional / non-square shapes; every other configuration "
+                           "is explored to fixpoint",
         "distinct_nontrivial": len(tally.sets.get("nontrivial", ())),
         "evaluations": c.get("transitions", 0),
         "rule": "BFS over the canonical graph (dtype, pointer, per-element rank pattern); every transition runs the "
